@@ -64,7 +64,7 @@ Case(b, sl, oo) ==
    first    |-> [verdict |-> oo.first.verdict, written |-> oo.first.written, after |-> oo.first.after,
                  unquotable |-> oo.first.unquotable],
    second   |-> [verdict |-> oo.second.verdict,
-                 mustPass |-> oo.first.verdict = "pass" /\ \A k \in UpdatedSlots(sl) : Representable(Content[sl[k].c])],
+                 mustPass |-> oo.first.verdict = "pass" /\ ~ReusesUpdated(sl, oo) /\ \A k \in UpdatedSlots(sl) : Representable(Content[sl[k].c])],
    nontrivial |-> Nontrivial(sl)]
 
 EmitCase(b, sl, oo) == IF Emit THEN PrintT(<<"EMIT", ToJson(Case(b, sl, oo))>>) ELSE TRUE
